@@ -78,6 +78,7 @@ fn run_life(pool: &dyn Pool, nf: usize, life: &Value) {
     let steps = life.get("steps").and_then(|x| x.as_array()).cloned().unwrap_or_default();
     let p0 = panics::COUNT.load(SeqCst);
     let c0 = CAUGHT.load(SeqCst);
+    panics::LOCK_AT_VERIFY.store(-1, SeqCst);
     let res = catch_unwind(AssertUnwindSafe(|| {
         if kind == "prev" {
             let _g = in_lib(InjectorPP::prevent);
@@ -176,7 +177,8 @@ fn run_life(pool: &dyn Pool, nf: usize, life: &Value) {
         }
     };
     emit(json!({"ev":"DropEnd","outcome":outcome,"cls":cls,"exp":exp,"act":act,"msg":msg,"lock":lock_state(),
-        "panics":pn,"live":interpose::owned_live(),"rwx_anon":watch::rwx_anon_count()}));
+        "panics":pn,"live":interpose::owned_live(),"rwx_anon":watch::rwx_anon_count(),
+        "lock_at_verify":panics::LOCK_AT_VERIFY.load(SeqCst)}));
 }
 
 /// run `f` from a destructor while the thread unwinds from an unrelated panic: everything the library
